@@ -14,6 +14,7 @@ import Driver.MdsData
 import Driver.Tags
 import Driver.Conf
 import Driver.Cli
+import Driver.Mml
 open Driver
 
 def allHandlers : List Handler :=
@@ -28,6 +29,7 @@ def allHandlers : List Handler :=
   ++ TagsD.handlers
   ++ ConfD.handlers
   ++ CliD.handlers
+  ++ MmlD.handlers
 
 def answerModel (cmd arg : String) : String :=
   match allHandlers.find? (·.cmd == cmd) with
